@@ -755,7 +755,19 @@ def every_path_answered(ctx: Ctx, rule: str) -> int:
             n += 1
             inside = any(any(st is y for b_ in lp.body for y in ast.walk(b_)) for lp in owning)
             desc = f"{c.name}.fetch_paths files `{unparse(st, 50)}` once per requested path"
-            if inside:
+            # ... in a mapping that lives across the iterations: it is not created again inside the loop
+            renew = [y for lp in owning for b_ in lp.body for y in ast.walk(b_) if isinstance(y, (ast.Assign, ast.AnnAssign)) and any(
+                isinstance(t, ast.Name) and t.id == st.targets[0].value.id for t in (y.targets if isinstance(y, ast.Assign) else [y.target]))]
+            early = [y for lp in owning for b_ in lp.body for y in ast.walk(b_) if isinstance(y, ast.Return) and isinstance(y.value, ast.Name) and y.value.id == st.targets[0].value.id]
+            if inside and early:
+                rep.bad(rule, f.qname, desc, f.loc(early[0]), [f"{f.loc(early[0])}: `{unparse(early[0], 40)}` inside the loop at {f.loc(owning[0])} returns the mapping after the first path it filed",
+                        "an evaluation that loads two or more external paths gets the first one back: the others are reported as loaded before they are produced, although each is committed"],
+                        "result-early", what=f"{c.name}.fetch_paths answers only the first requested path")
+            elif inside and renew:
+                rep.bad(rule, f.qname, desc, f.loc(renew[0]), [f"{f.loc(renew[0])}: `{unparse(renew[0], 50)}` creates the returned mapping again at every iteration of the loop at {f.loc(owning[0])}: "
+                        "only the last requested path is answered", "an evaluation that loads two or more external paths gets one of them back: the others are reported as loaded before they are "
+                        "produced, although each is committed"], "result-renewed", what=f"{c.name}.fetch_paths answers only the last requested path")
+            elif inside:
                 rep.ok(rule, f.qname, desc, f.loc(st))
             else:
                 rep.bad(rule, f.qname, desc, f.loc(st), [f"{f.loc(st)}: the statement is after the loop at {f.loc(owning[0])}: only the last requested path is answered",
@@ -1420,7 +1432,9 @@ def one_spelling_per_path(ctx: Ctx, rule: str) -> int:
     f = prog.func("dds.structures_utils.DDSPathUtils.create")
     if f is None:
         raise AnchorError("dds.structures_utils.DDSPathUtils.create not found")
-    groups = [["/a/b", "/a//b", "/a/b/", "//a/b"], ["/x", "//x", "/x//"], ["/p/q/r", "/p//q///r/"]]
+    import pathlib
+    # (a path object names the same path as its text: keep(Path('/a/b'), f) is read back with load('/a/b'))
+    groups = [["/a/b", "/a//b", "/a/b/", "//a/b", pathlib.Path("/a/b")], ["/x", "//x", "/x//", pathlib.Path("/x")], ["/p/q/r", "/p//q///r/", pathlib.Path("/p/q/r")]]
     bad: List[str] = []
     und: List[str] = []
     for grp in groups:
@@ -1446,13 +1460,185 @@ def one_spelling_per_path(ctx: Ctx, rule: str) -> int:
         accepted = {s: v for s, v in seen.items() if v != "<refused>"}
         if len(set(accepted.values())) > 1:
             bad.append("spellings of one path give different paths: " + ", ".join(f"create({s!r}) = {v!r}" for s, v in accepted.items()))
-    desc = "DDSPathUtils.create gives one path per sequence of non-empty segments (empty segments are dropped or refused)"
+    desc = "DDSPathUtils.create gives one path per sequence of non-empty segments (empty segments are dropped or refused; a pathlib.Path names the path of its text)"
     if bad:
         rep.bad(rule, f.qname, desc, f.loc(), bad + ["the local and DBFS stores place a path by its non-empty segments, the memory store by its text: keep('/a/b', f); "
-                "keep('/a//b', g); load('/a/b') serves g from the local store and f from the memory store"], "spelling",
-                what="create keeps empty path segments")
+                "keep('/a//b', g); load('/a/b') serves g from the local store and f from the memory store; a path kept through a pathlib.Path and loaded through its text "
+                "(or kept again through the other spelling) must be one entry of the store"], "spelling",
+                what="DDSPathUtils.create gives two paths for two spellings of one path")
     elif und:
         rep.unknown(rule, f.qname, desc, f.loc(), und[:3])
     else:
         rep.ok(rule, f.qname, desc + f" ({sum(len(g) for g in groups)} sample spellings in {len(groups)} groups)", f.loc())
     return 1
+
+
+def memory_presence_by_membership(ctx: Ctx, rule: str) -> int:
+    """MemoryStore.has_blob answers from the KEYS of the mapping that store_blob fills (`key in self._cache`), never from the stored value:
+    None (and any falsy value) is a legitimate blob.  `self._cache.get(key) is not None` reports a kept None absent: its path is left out of the
+    commit (only the paths whose blob is present are committed) and keeps serving the previous value."""
+    rep = ctx.report
+    prog = ctx.prog
+    mem = prog.cls("dds.store.MemoryStore")
+    if mem is None or "has_blob" not in mem.methods or "store_blob" not in mem.methods:
+        raise AnchorError("dds.store.MemoryStore.has_blob / store_blob not found")
+    hb, sb = mem.methods["has_blob"], mem.methods["store_blob"]
+    tables = set()
+    for n_ in sb.own_nodes():
+        if isinstance(n_, ast.Subscript) and isinstance(n_.ctx, ast.Store) and isinstance(n_.value, ast.Attribute) and isinstance(n_.value.value, ast.Name) and n_.value.value.id == "self":
+            tables.add(n_.value.attr)
+    n = 0
+    for r in hb.own_nodes():
+        if not isinstance(r, ast.Return) or r.value is None:
+            continue
+        n += 1
+
+        def on_table(x: ast.AST) -> bool:
+            return isinstance(x, ast.Attribute) and isinstance(x.value, ast.Name) and x.value.id == "self" and x.attr in tables
+        reads_value = [y for y in ast.walk(r.value) if (isinstance(y, ast.Call) and isinstance(y.func, ast.Attribute) and y.func.attr in ("get", "pop", "setdefault") and on_table(y.func.value))
+                       or (isinstance(y, ast.Subscript) and on_table(y.value))]
+        member = [y for y in ast.walk(r.value) if isinstance(y, ast.Compare) and len(y.ops) == 1 and isinstance(y.ops[0], (ast.In, ast.NotIn)) and (
+            on_table(y.comparators[0]) or (isinstance(y.comparators[0], ast.Call) and isinstance(y.comparators[0].func, ast.Attribute) and y.comparators[0].func.attr == "keys"
+                                           and on_table(y.comparators[0].func.value)))]
+        member += [y for y in ast.walk(r.value) if isinstance(y, ast.Call) and isinstance(y.func, ast.Attribute) and y.func.attr == "__contains__" and on_table(y.func.value)]
+        desc = f"MemoryStore.has_blob answers by membership in {sorted(tables)} (a stored None / falsy value is present)"
+        if reads_value:
+            rep.bad(rule, hb.qname, desc, hb.loc(r), [f"{hb.loc(r)}: `{unparse(r.value, 70)}` looks at the stored value",
+                    "a kept function whose latest version returns None: the blob is reported absent, the path is left out of the commit and dds.load keeps serving the value of the "
+                    "earlier version (or fails for a new path) while dds.keep returned None"], "mem-presence-by-value", what="MemoryStore.has_blob reports a stored None as absent")
+        elif member:
+            rep.ok(rule, hb.qname, desc, hb.loc(r))
+        else:
+            rep.info(rule, hb.qname, f"has_blob of the memory store returns `{unparse(r.value, 60)}` (not judged)", hb.loc(r))
+    return n
+
+
+def reads_after_presence(ctx: Ctx, v: LocalView, rule: str) -> int:
+    """The reading methods of the local store open a file (fetch_blob: the metadata, the blob) or resolve a link (fetch_paths) only under
+    conditions that imply that this very name exists: a reader that arrives between two publications of a writer (blob renamed, metadata
+    not yet; directory created, link not yet) is told "absent" - it does not fail on the missing name, and it does not take the name of a
+    link that is not there for a key.  Decided propositionally from the conditions the effect model attaches to each read."""
+    from ..propdom import conj_possible
+    rep = ctx.report
+    prog = ctx.prog
+    m = v.m
+    n = 0
+    for method in ("fetch_blob", "fetch_paths"):
+        m.expr_terms = {}
+        effs = m.effects_of(method)
+        f = v.func(method)
+
+        def atom_name(e: ast.AST) -> Optional[str]:
+            if isinstance(e, ast.Call) and e.args and unparse(e.func).split(".")[-1] in ("exists", "lexists", "isfile", "islink") and "path" in unparse(e.func):
+                t = m.expr_terms.get(id(e.args[0]))
+                return "exists:" + (show(t) if t is not None else unparse(e.args[0]))
+            return None
+        seen = set()
+        for e in effs:
+            call = getattr(e, "node", None)
+            is_read = e.kind == "READ"
+            is_resolve = e.kind == "PROBE" and isinstance(call, ast.Call) and unparse(call.func).split(".")[-1] in ("realpath", "readlink")
+            if not (is_read or is_resolve):
+                continue
+            key = (e.kind, show(e.term), e.where())
+            if key in seen:
+                continue
+            seen.add(key)
+            n += 1
+            what = "reads" if is_read else "resolves the link"
+            desc = f"{method} {what} {show(e.term)[:70]} only when that name exists"
+            func_ = getattr(e, "func", None) or f
+            world = {"exists:" + show(e.term): False}
+            if conj_possible(prog, func_, e.conds, world, atom_name):
+                rep.bad(rule, _site(v, method), desc, e.where(), [f"{e.where()}: reached under " + (" and ".join(f"{'' if p else 'not '}({unparse(t, 60)})" for t, p in e.conds) or "no condition")
+                        + f", which also holds when {show(e.term)} does not exist",
+                        ("a reader between the two renames of store_blob (blob published, metadata not yet) fails with FileNotFoundError instead of being told 'absent'" if method == "fetch_blob" else
+                         "a reader between the writer's makedirs and the publication of the link (or of a never-kept path next to a kept one) takes the last segment of the path for a key: "
+                         "dds.load returns None - a value nobody kept - instead of an error")],
+                        f"read-unguarded:{method}:{show(e.term)[:40]}", what=f"{method} uses a name of the store without having seen it")
+            else:
+                rep.ok(rule, _site(v, method), desc, e.where())
+    return n
+
+
+def memory_readers_pure(ctx: Ctx, rule: str) -> int:
+    """The reading methods of the memory store (has_blob, fetch_blob, fetch_paths) change none of its tables: a fetch that inserts the key
+    (`setdefault`) makes an absent blob present - the key of a function that failed is then taken for computed; a fetch that removes it
+    (`pop`) makes the bare store forget what the cache-wrapped store still serves."""
+    rep = ctx.report
+    prog = ctx.prog
+    mem = prog.cls("dds.store.MemoryStore")
+    if mem is None:
+        raise AnchorError("dds.store.MemoryStore not found")
+    MUT = {"setdefault", "pop", "popitem", "clear", "update", "__setitem__", "__delitem__", "move_to_end", "append", "add", "remove", "discard", "insert", "extend"}
+    n = 0
+    for name in ("has_blob", "fetch_blob", "fetch_paths"):
+        m = mem.methods.get(name)
+        if m is None:
+            continue
+        n += 1
+
+        def on_self(x: ast.AST) -> bool:
+            return isinstance(x, ast.Attribute) and isinstance(x.value, ast.Name) and x.value.id == "self"
+        wit = []
+        for y in m.own_nodes():
+            if isinstance(y, ast.Call) and isinstance(y.func, ast.Attribute) and y.func.attr in MUT and on_self(y.func.value):
+                wit.append(f"{m.loc(y)}: `{unparse(y, 60)}` changes self.{y.func.value.attr}")
+            if isinstance(y, ast.Subscript) and isinstance(y.ctx, (ast.Store, ast.Del)) and on_self(y.value):
+                wit.append(f"{m.loc(y)}: `{unparse(y, 60)}` is assigned / deleted")
+            if isinstance(y, ast.Attribute) and isinstance(y.ctx, ast.Store) and isinstance(y.value, ast.Name) and y.value.id == "self":
+                wit.append(f"{m.loc(y)}: self.{y.attr} is re-bound")
+        desc = f"MemoryStore.{name} reads the tables of the store without changing them"
+        if wit:
+            rep.bad(rule, m.qname, desc, m.loc(), wit + ["`try: x = dds.keep('/p', g) except OSError: x = dds.load('/p')` with a failing g: the fallback load fetches the key g would have had; a fetch "
+                    "that inserts it makes the failure a stored None (served from then on, g never runs again); a fetch that removes a key makes the store answer differently with and without the object cache"],
+                    f"mem-reader-mutates:{name}", what=f"MemoryStore.{name} modifies the store")
+        else:
+            rep.ok(rule, m.qname, desc, m.loc())
+    return n
+
+
+def presence_requires_all(ctx: Ctx, v: LocalView, rule: str) -> int:
+    """has_blob answers True only when EVERY name that fetch_blob reads exists (the blob and its metadata - the commit marker, published last): for
+    each such name, no return of has_blob can yield a true value, along a feasible path, in a world where that name does not exist.  A blob file
+    without its metadata (a writer between its two renames, or killed there) is not a blob: fetch_blob answers None for it."""
+    from ..propdom import outcome_possible, excluding_branches
+    rep = ctx.report
+    prog = ctx.prog
+    m = v.m
+    m.expr_terms = {}
+    f = v.func("has_blob")
+    m.effects_of("has_blob")
+    hb_terms = dict(m.expr_terms)
+    m.expr_terms = {}
+    reads = []
+    for e in m.effects_of("fetch_blob"):
+        if e.kind == "READ" and show(e.term) not in [show(t) for t in reads]:
+            reads.append(e.term)
+    m.expr_terms = hb_terms
+
+    def atom_name(e: ast.AST) -> Optional[str]:
+        if isinstance(e, ast.Call) and e.args and unparse(e.func).split(".")[-1] in ("exists", "lexists", "isfile", "islink") and "path" in unparse(e.func):
+            t = hb_terms.get(id(e.args[0]))
+            return "exists:" + (show(t) if t is not None else unparse(e.args[0]))
+        return None
+    cfg = cfg_of(f)
+    n = 0
+    for t in reads:
+        n += 1
+        world = {"exists:" + show(t): False}
+        desc = f"has_blob answers False when {show(t)} (read by fetch_blob) does not exist"
+        avoid = excluding_branches(prog, f, cfg, world, atom_name)
+        bad_ret = None
+        for r in f.own_nodes():
+            if isinstance(r, ast.Return) and r.value is not None and not (isinstance(r.value, ast.Constant) and not r.value.value):
+                if outcome_possible(prog, f, r.value, "T", world, atom_name) and cfg.find_path([cfg.entry], cfg.nodes_of(r), avoid=avoid) is not None:
+                    bad_ret = r
+        if bad_ret is None:
+            rep.ok(rule, _site(v, "has_blob"), desc, f.loc())
+        else:
+            rep.bad(rule, _site(v, "has_blob"), desc, f.loc(bad_ret), [f"{f.loc(bad_ret)}: `{unparse(bad_ret, 70)}` can be true although {show(t)} is missing",
+                    "a second store on the same internal directory (another data view, another process) keeps the function while the first one is between its two renames - or after it "
+                    "died there: the blob counts as present, fetch_blob answers None, keep returns None and commits the path of that view to it"],
+                    f"presence-partial:{show(t)[:40]}", what="has_blob reports a blob present while a name fetch_blob needs is missing")
+    return n
